@@ -3,25 +3,29 @@
 use std::path::Path;
 use std::process::{Child, Command, Stdio};
 
-pub fn spawn_external(prop_id: &str, tier: &str, seed: u64, root: &Path, out_dir: &Path) -> Vec<(String, Child)> {
+pub fn spawn_external(prop_id: &str, tier: &str, seed: u64, root: &Path, out_dir: &Path, regress: &Path) -> Vec<(String, Child)> {
     let mut v = vec![];
     if prop_id == "C19" || prop_id == "C01" {
         let script = root.join("py").join("check_py.py");
         let py = std::env::var("JLV_PYTHON").unwrap_or_else(|_| "python3-vt".to_string());
         if script.exists() {
-            let tag = "py";
-            let child = Command::new(py)
-                .arg(&script)
-                .args(["--prop", prop_id, "--tier", tier, "--seed", &seed.to_string()])
-                .args(["--out", &out_dir.join(format!("{}.json", tag)).to_string_lossy()])
-                .env("RUST_BACKTRACE", "0")
-                .env("JLV_ROOT", root)
-                .stdin(Stdio::null())
-                .stdout(Stdio::null())
-                .stderr(Stdio::inherit())
-                .spawn();
-            if let Ok(ch) = child {
-                v.push((format!("external/{}", tag), ch));
+            for pkg in ["dev", "release"] {
+                let tag = format!("py-{}", pkg);
+                let child = Command::new(&py)
+                    .arg(&script)
+                    .args(["--prop", prop_id, "--tier", tier, "--seed", &seed.to_string(), "--pkg", pkg])
+                    .args(["--out", &out_dir.join(format!("{}.json", tag)).to_string_lossy()])
+                    .args(["--regress-file", &regress.to_string_lossy()])
+                    .env("RUST_BACKTRACE", "0")
+                    .env("JLV_ROOT", root)
+                    .stdin(Stdio::null())
+                    .stdout(Stdio::null())
+                    .stderr(Stdio::inherit())
+                    .spawn();
+                match child {
+                    Ok(ch) => v.push((format!("external/{}", tag), ch)),
+                    Err(e) => eprintln!("cannot spawn the python leg: {}", e),
+                }
             }
         }
     }
